@@ -13,7 +13,7 @@ Proof. exact parse_arpa_terminates. Qed.
 
 (* accept => the parsed structure satisfies what the query code relies on: order in [2, KENLM_MAX_ORDER], per-order entry
    counts equal to the header, every n-gram has exactly n words, each of them in the vocabulary (or literally <unk>),
-   no positive / NaN probability, finite back-offs, none but zero on the highest order, <s> and </s> present *)
+   no positive probability (a literal NaN is read as a NaN and accepted, as the code does), finite back-offs, none but zero on the highest order, <s> and </s> present *)
 Theorem C10_accept_implies_wellformed : forall st file m, parse_arpa st file = Ok m -> wellformed m.
 Proof. exact parse_arpa_wellformed. Qed.
 
